@@ -76,11 +76,11 @@ size_t num_local_variables_allowed = 0;
 
 lpc_type_t *type_of_locals = 0;
 ident_hash_elem_t **locals = 0;
-char *runtime_locals = 0;
+short *runtime_locals = 0;
 
 lpc_type_t *type_of_locals_ptr = 0;
 ident_hash_elem_t **locals_ptr = 0;
-char *runtime_locals_ptr = 0;
+short *runtime_locals_ptr = 0;
 
 size_t locals_size = 0;
 size_t type_of_locals_size = 0;
@@ -117,7 +117,7 @@ void init_locals () {
 
   type_of_locals  = CALLOCATE (num_local_variables_allowed, lpc_type_t, TAG_LOCALS, "init_locals:1");
   locals          = CALLOCATE (num_local_variables_allowed, ident_hash_elem_t *, TAG_LOCALS, "init_locals:2");
-  runtime_locals  = CALLOCATE (num_local_variables_allowed, char, TAG_LOCALS, "init_locals:3");
+  runtime_locals  = CALLOCATE (num_local_variables_allowed, short, TAG_LOCALS, "init_locals:3");
 
   type_of_locals_ptr = type_of_locals;
   locals_ptr = locals;
@@ -169,7 +169,7 @@ void deactivate_current_locals () {
 #endif
   for (i = 0; i < current_number_of_locals; i++)
     {
-      runtime_locals_ptr[i] = (char)locals_ptr[i]->dn.local_num;
+      runtime_locals_ptr[i] = locals_ptr[i]->dn.local_num;
       locals_ptr[i]->dn.local_num = -1;
     }
 }
@@ -272,7 +272,7 @@ void reallocate_locals () {
 
   runtime_locals = RESIZE (runtime_locals,
     locals_size,
-    char,
+    short,
     TAG_LOCALS, "reallocate_locals:3"
   );
   runtime_locals_ptr = runtime_locals + offset;
